@@ -145,7 +145,9 @@ Definition jhas_ (k : string) (j : json) : bool :=
   match j with JObj kvs => match obj_get k kvs with Some _ => true | None => false end | _ => false end.
 
 (* Issuer::encode. max_decoys = the argument of .decoy(), if called; cnf = the holder JWK, if required *)
-Definition issue (claims : json) (paths : list string) (max_decoys : option Z) (cnf : option json) (header : json)
+Definition is_object (j : json) : bool := match j with JObj _ => true | _ => false end.
+
+Definition issue_obj (claims : json) (paths : list string) (max_decoys : option Z) (cnf : option json) (header : json)
   : out (string * json * list disc) :=
   if has_reserved true claims then Fail else
   (* repair F21: with key binding the issuer sets cnf itself; a cnf claim of the caller is refused *)
@@ -162,27 +164,12 @@ Definition issue (claims : json) (paths : list string) (max_decoys : option Z) (
       let kvs4 := match cnf with Some k => obj_insert "cnf" k kvs3 | None => kvs3 end in
       dO jwt <- ie_sign E header (JObj kvs4);
       Val (serialise_token jwt ds, JObj kvs4, ds)
-  | _ =>
-      (* claims that are not an object (outside every property's domain, modelled for fidelity):
-         build_decoys fails; Value::index_mut("_sd_alg"/"cnf") turns null into an object and panics on
-         any other value *)
-      match max_decoys with
-      | Some m => if (0 <? m)%Z then Fail else
-          match ds, cnf, c1 with
-          | [], None, _ => dO jwt <- ie_sign E header c1; Val (serialise_token jwt ds, c1, ds)
-          | _, _, JNull =>
-              let kvs3 := match ds with [] => [] | _ => [("_sd_alg", JStr "sha-256")] end in
-              let kvs4 := match cnf with Some k => obj_insert "cnf" k kvs3 | None => kvs3 end in
-              dO jwt <- ie_sign E header (JObj kvs4); Val (serialise_token jwt ds, JObj kvs4, ds)
-          | _, _, _ => Panic end
-      | None =>
-          match ds, cnf, c1 with
-          | [], None, _ => dO jwt <- ie_sign E header c1; Val (serialise_token jwt ds, c1, ds)
-          | _, _, JNull =>
-              let kvs3 := match ds with [] => [] | _ => [("_sd_alg", JStr "sha-256")] end in
-              let kvs4 := match cnf with Some k => obj_insert "cnf" k kvs3 | None => kvs3 end in
-              dO jwt <- ie_sign E header (JObj kvs4); Val (serialise_token jwt ds, JObj kvs4, ds)
-          | _, _, _ => Panic end
-      end
+  | _ => Fail   (* not reached: issue refuses claims that are not an object, and the fold keeps an object an object *)
   end.
+
+(* repair F29: claims that are not a JSON object cannot be the payload of a JWT; Issuer::encode refuses them before
+   anything else (before the repair: a token with a non-object payload, or a panic in Value::index_mut) *)
+Definition issue (claims : json) (paths : list string) (max_decoys : option Z) (cnf : option json) (header : json)
+  : out (string * json * list disc) :=
+  if is_object claims then issue_obj claims paths max_decoys cnf header else Fail.
 End I.
